@@ -10,8 +10,6 @@ NA = {
            "(DESIGN.md 2 F5-F7, 5); its non-crypto fragments are decided under C04, C05, C08, C13",
     "C06": "a search over serialisations (Debug/CBOR/JSON) of values produced by whole ceremonies with real key generation; "
            "neither producers nor formatters can be executed symbolically (DESIGN.md 5)",
-    "C19": "task interleaving over two whole ceremonies plus tokio lock internals: Kani does not model concurrency and the "
-           "ceremonies are out of reach (DESIGN.md 5)",
 }
 PENDING = "solver-based check not built yet in this revision (planned in DESIGN.md section 4)"
 
